@@ -27,6 +27,12 @@ _CERT = [
 ]
 
 KANI = {
+    'C20': [
+        {'name': 'kani_chunk_at_is_the_key_bits', 'kind': 'complete', 'timeout': 300,
+         'target': 'src/execution/state.rs chunk_at: every 32-byte key, every depth 0..=51: the depth-th 5-bit group of the key (big-endian, zero padded), < 32, no out-of-bounds'},
+        {'name': 'kani_child_index_is_rank', 'kind': 'complete', 'timeout': 300,
+         'target': 'src/execution/state.rs Branch::child_index: every bitmap and chunk: None iff bit clear, else rank of the chunk'},
+    ],
     'C12': [
         {'name': 'kani_slice_commitment_injective', 'kind': 'complete', 'timeout': 300,
          'target': 'src/shredder.rs SliceCommitment::new: equal commitment bytes imply equal (slot, slice index, is_last, slice root); full domain, loop-free'},
